@@ -95,7 +95,9 @@ def faithful(cfg, expl, acts, hidden, steps) -> str | None:
     for j in range(R):
         hv = hidden.get(j)
         if not hv or len(hv) != 1:
-            return f"repetition {j}: after_reset was called {len(hv or [])} times for this repetition's environment (expected exactly once)"
+            # the harness attributes hidden games through "the j-th environment handed out is reset exactly once"; an implementation that hands
+            # environments out differently is not wrong for that - the faithfulness clause cannot be decided here, the other clauses still are
+            return f"UNATTRIBUTABLE repetition {j}: after_reset was called {len(hv or [])} times for the {j}-th environment handed out"
         v = hv[0]
         scale = max(1.0, max(abs(x) for x in v))
         K = base
@@ -167,7 +169,9 @@ def unit(u) -> Stats:
     for p in ps:
         m = len(detpool.chunking(R, p)) if p > 1 else 1
         scheds = [("sequential", [0])] if p == 1 else detpool.schedules_for(m, p, 5, 1)
-        if p > 1 and m > 5:
+        if p > 1 and R > 100:
+            scheds = scheds[:1]
+        elif p > 1 and m > 5:
             scheds = scheds[:3] + scheds[3::max(1, len(scheds) // 3)]
         elif p > 1 and m == 5 and R != 5:
             scheds = scheds[::3]
@@ -181,18 +185,22 @@ def unit(u) -> Stats:
             st.states += 1
             st.evals += 1
             msg = faithful(cfg, expl, acts, hidden, steps)
+            attributable = not (msg or "").startswith("UNATTRIBUTABLE")
+            if not attributable:
+                st.cap(f"hidden games could not be attributed to repetitions ({tag} p={p}): {msg}; trajectory faithfulness not decided there")
+                msg = None
             if msg:
                 st.violation(f"[evaluate {tag} {solver} {generator} R={R} p={p} schedule {name} {a}] {msg}", processes=p, assignment=a, **doc)
                 if st.nviol >= 3:
                     return st
                 continue
-            if p == 1:
+            if p == 1 and attributable:
                 base_k = A.kmask(A.minimal_ids(n))
                 for j in range(R):
                     t0 = read(run_history(n, comp, hidden[j][0], [("reset", base_k), ("compute",)]))
                     if bool(np.all(t0.lo == t0.up)):
                         st.count("repetitions_done_right_after_reset")
-            if continuous:
+            if continuous and attributable:
                 games = [hidden[j][0] for j in range(R)]
                 if len(set(games)) != R:
                     st.violation(f"[evaluate {tag} {generator} R={R} p={p} {name} {a}] only {len(set(games))} distinct hidden games in {R} repetitions "
@@ -207,7 +215,7 @@ def unit(u) -> Stats:
             elif key != (ref[3].tobytes(), ref[4].tobytes()):
                 # schedule dependence: is it exactly the known per-chunk restart of the random solver's stream?
                 known = False
-                if solver == "random" and p > 1:
+                if solver == "random" and p > 1 and attributable:
                     pred = restart_model_actions(cfg, detpool.chunking(R, p), hidden, steps)
                     if np.array_equal(pred, acts):
                         known = True
@@ -228,7 +236,9 @@ def unit(u) -> Stats:
             continue
         st.traces += 1
         msg = faithful(cfg, expl, acts, hidden, steps)
-        if msg:
+        if msg and msg.startswith("UNATTRIBUTABLE"):
+            st.cap(f"real Pool p={p}: {msg}")
+        elif msg:
             st.violation(f"[evaluate {tag} real Pool p={p}] {msg}", processes=p, real_pool=True, **doc)
         elif p in outcomes and (expl.tobytes(), acts.tobytes()) not in outcomes[p]:
             st.violation(f"[evaluate {tag}] HARNESS CONFORMANCE: the real Pool with p={p} produced a result no DetPool schedule produced", processes=p,
@@ -237,6 +247,54 @@ def unit(u) -> Stats:
     if solver == "greedy" and R == 5:
         st.sample({"config": doc, "p_values": list(ps), "chunkings": {p: detpool.chunking(R, p) for p in ps if p > 1}})
     return st
+
+
+def child_evaluate(payload):
+    """Runs in a fresh interpreter (icverif.child): one evaluate() per worker count, everything returned as plain lists."""
+    cfg = tuple(payload["cfg"])
+    out = {}
+    for p in payload["ps"]:
+        sched = None if p == 1 else detpool.fixed([i % p for i in range(len(detpool.chunking(cfg[4], p)))], "round-robin")
+        expl, acts, hidden, steps = call_evaluate(cfg, p, sched if p > 1 else detpool.fixed([0], "sequential"))
+        out[str(p)] = {"expl": expl.tolist(), "acts": acts.tolist(), "hidden": [list(hidden[j][0]) for j in range(cfg[4])]}
+    return out
+
+
+def interpreter_unit(u) -> Stats:
+    """The same seed in SEPARATE interpreter invocations whose string hashing is salted differently (PYTHONHASHSEED 0 / 1 / 4242), with 1 and 2
+    worker processes: hidden games and matrices must be a function of the seed alone."""
+    from ..child import run_children
+    _, cfgs = u
+    st = Stats()
+    for cfg in cfgs:
+        n, generator, solver, seed, R, limit, comp, gap_name = cfg
+        doc = {"n": n, "generator": generator, "solver": solver, "gen_seed": seed, "repetitions": R, "limit": limit, "computer": comp, "gap": gap_name,
+               "tag": "interpreters", "interpreters": True}
+        res = run_children("c12", "child_evaluate", {"cfg": list(cfg), "ps": [1, 2]})
+        ref = None
+        for hs, r in sorted(res.items()):
+            for p, o in sorted(r.items()):
+                st.states += 1
+                st.transitions += 1
+                st.traces += 1
+                st.outcomes.add(hash(json.dumps(o, sort_keys=True)))
+                if ref is None:
+                    ref = (hs, p, o)
+                elif o != ref[2]:
+                    what = "hidden games" if o["hidden"] != ref[2]["hidden"] else "result matrices"
+                    st.violation(f"[evaluate {solver}/{generator} R={R} seed={seed}] the {what} differ between two invocations with the same seed: "
+                                 f"(PYTHONHASHSEED={hs}, p={p}) vs (PYTHONHASHSEED={ref[0]}, p={ref[1]}); first hidden game {o['hidden'][0][:8]} vs "
+                                 f"{ref[2]['hidden'][0][:8]}", processes=int(p), hash_seeds=[ref[0], hs], **doc)
+                    break
+            else:
+                continue
+            break
+        st.nontrivial += 1
+    return st
+
+
+def dispatch(u) -> Stats:
+    return interpreter_unit(u) if u[0] == "interpreters" else unit(u)
 
 
 def run(run: Run) -> None:
@@ -266,6 +324,12 @@ def run(run: Run) -> None:
                 continue
             us.append(((n, generator, solver, seed * 4 + 3, 12, None, "superadditive_cached", ("l1_norm", "exploitability")[si]),
                        [1, 2, 3] if quick else [1, 2, 3, 4, 8, 16], (), f"{solver}/{generator}/degenerate-prone"))
+    # a threshold on the NUMBER of repetitions (batching, recycling of environments): one long list of cheap repetitions
+    for R in ((260,) if quick else (260, 520, 1030)):
+        us.append(((3, "noisy_factory", "largest", seed + 7, R, 2, "superadditive_cached", "l1_norm"), [1, 2, 5] if quick else [1, 2, 5, 16], (), f"largest/R{R}"))
+    us.append(("interpreters", [(3, "noisy_factory", "greedy", seed + 11, 3, 2, "superadditive_cached", "l1_norm"),
+                                (3, "xos", "largest", seed + 12, 3, None, "superadditive", "exploitability"),
+                                (3, "factory", "greedy", seed + 13, 2, None, "superadditive_cached", "l1_norm")]))
     us.append(((4, "noisy_factory", "greedy", seed + 3, 5, 3, "superadditive_cached", "l1_norm"), [1, 2, 3], (), "greedy/n4"))
     us.append(((5, "xos", "largest", seed + 5, 3, 2, "superadditive_cached", "linf_norm"), [1, 2], (), "largest/n5"))
     if not quick:
@@ -275,10 +339,12 @@ def run(run: Run) -> None:
                 "thorough 1..16 = all chunkings) x chunk->worker assignments (all set partitions for <= 5 chunks, round-robin / all-on-one / one-per-chunk / "
                 "single deviations above) on the deterministic pool; (a) each column replayed against its repetition's hidden game (reported through "
                 "after_reset), (b) identical matrices for all schedules, (c) continuous generators: all hidden games distinct. "
-                "non-trivial = schedules with >= 2 chunks")
-    run.bounds = {"n": [3] if quick else [3, 4], "p": ps_q if quick else ps_t, "repetitions": [1, 2, 5, 12] if quick else [1, 2, 5, 12, 24], "units": len(us)}
+                "one long list of 260 (thorough 520, 1030) repetitions; three configurations in SEPARATE interpreters with PYTHONHASHSEED 0 / 1 / 4242 x p = 1, 2: "
+                "hidden games and matrices are a function of the seed. non-trivial = schedules with >= 2 chunks")
+    run.bounds = {"n": [3] if quick else [3, 4], "p": ps_q if quick else ps_t, "repetitions": [1, 2, 5, 12, 260] if quick else [1, 2, 5, 12, 24, 260, 520, 1030],
+                  "interpreter_hash_seeds": [0, 1, 4242], "units": len(us)}
     run.assumptions = ["conformance: real multiprocessing.Pool runs must land in the DetPool outcome set", "forkserver start method is not modelled"]
-    total = fanout(unit, sorted(us, key=lambda u: -u[0][4] * len(u[1])), procs=8, chunk=1)
+    total = fanout(dispatch, sorted(us, key=lambda u: -(u[0][4] * len(u[1]) if u[0] != "interpreters" else 10 ** 6)), procs=8, chunk=1)
     k = total.counters.get("known:evaluate-random-solver-chunk-restart", 0)
     if k:
         if not run.known_finding("evaluate-random-solver-chunk-restart", f"{k} explored schedules with p>1 reproduce the per-chunk restart model exactly"):
@@ -288,6 +354,10 @@ def run(run: Run) -> None:
 
 
 def replay(doc: dict):
+    if doc.get("interpreters"):
+        st = interpreter_unit(("interpreters", [(doc["n"], doc["generator"], doc["solver"], doc["gen_seed"], doc["repetitions"], doc["limit"], doc["computer"], doc["gap"])]))
+        msgs = [v["message"] for v in st.violations]
+        return bool(msgs), "; ".join(msgs) if msgs else "identical in all interpreter invocations"
     cfg = (doc["n"], doc["generator"], doc["solver"], doc["gen_seed"], doc["repetitions"], doc["limit"], doc["computer"], doc["gap"])
     p = doc.get("processes", 2)
     st = unit((cfg, sorted({1, p}), (), "replay"))
